@@ -727,3 +727,54 @@ func sortedKeys[V any](m map[string]V) []string {
 	sort.Strings(ks)
 	return ks
 }
+
+// loopsProgress: no loop of the package's functions can go round without changing anything - a cycle from a loop head
+// back to itself that leaves every loop-carried register at its value, stores nothing and calls / receives / sends
+// nothing repeats forever once it is entered (a deleted increment, a lost advance). One obligation per function with
+// loops. Cycles with calls are not judged (the callee may be what makes progress).
+func loopsProgress(c *core.Ctx, rule string, pkgs ...string) {
+	for _, pkg := range pkgs {
+		for _, fn := range c.W.SourceFuncs(pkg) {
+			if !ir.HasLoop(fn) {
+				continue
+			}
+			name := pkgShort(pkg) + "." + fnLabel(fn)
+			an := c.Analyze(fn)
+			if len(an.Problems) > 0 {
+				continue // the pack's own rules report functions the engine cannot model
+			}
+			var bad *ir.Path
+			for _, h := range an.Headers {
+				start := an.Start[h]
+				for _, p := range an.Segs[h] {
+					if p.To != h || start == nil {
+						continue
+					}
+					still := true
+					for phi, v := range p.PhiOut {
+						if phi.Block() != h {
+							continue
+						}
+						if s := start.Reg(phi); s == nil || !ir.Same(s, v) {
+							still = false
+						}
+					}
+					for i := range p.Steps {
+						switch p.Steps[i].Kind {
+						case ir.KStore, ir.KCall, ir.KRecv, ir.KSend, ir.KSelect, ir.KGo, ir.KMapUpdate, ir.KClose, ir.KDefer:
+							still = false
+						}
+					}
+					if still {
+						bad = p
+					}
+				}
+			}
+			if bad != nil {
+				c.Fail(rule, name, lastPos(bad), "a pass of this loop changes nothing (no loop-carried value moves, nothing is stored, called, sent or received): once entered it never ends:\n%s", bad)
+			} else {
+				c.Ok(rule, name, fn.Pos(), "every cycle moves a loop-carried value or has an effect")
+			}
+		}
+	}
+}
